@@ -75,14 +75,24 @@ impl CopyDriver for Driver {
             joins.push(copy_worker);
         }
 
-        walk_worker.join()
-            .map_err(|_| XcpError::CopyError("Error walking copy tree".to_string()))??;
+        // Wait for every thread before reporting the first failure,
+        // so that nothing is still being copied, or reported to
+        // `stats`, once we have returned.
+        let mut result: Result<()> = match walk_worker.join() {
+            Ok(r) => r,
+            Err(_) => Err(XcpError::CopyError("Error walking copy tree".to_string()).into()),
+        };
         for handle in joins {
-            handle.join()
-                .map_err(|_| XcpError::CopyError("Error during copy operation".to_string()))??;
+            let r = match handle.join() {
+                Ok(r) => r,
+                Err(_) => Err(XcpError::CopyError("Error during copy operation".to_string()).into()),
+            };
+            if result.is_ok() {
+                result = r;
+            }
         }
 
-        Ok(())
+        result
     }
 
 }
